@@ -18,7 +18,7 @@ PID = "C17"
 RULE = (
     "A: loop nests of depth 1..3; per loop (lb,ub,step) from lb{0,1} x ub{0,1,2,3,4,5,7} x step{1,2,3} (depth 3: reduced menu), each bound constant or a "
     "run-time argument; per body position before/after the inner loop: nothing / tagged side-effecting op using all visible induction variables / pure op "
-    "feeding a later tagged op. B: allocation/dim/subview placements in single and nested loops x run-time sizes, and sizes read from a memory cell that the loop body does or does not update. distinct = distinct (program, event "
+    "feeding a later tagged op. B: allocation/dim/subview placements (incl. rank-3 subviews under every static/dynamic size mask x queried dimension) in single and nested loops x run-time sizes, and sizes read from a memory cell that the loop body does or does not update. distinct = distinct (program, event "
     "trace); non-trivial = the pass changed the IR"
 )
 ASSUMPTIONS = [
@@ -254,6 +254,22 @@ def alloc_programs():
                     + ('\n    "test.op"(%dm) {verif.id = 8 : i32} : (index) -> ()' if extra else ""),
                     "memref<?x4xi32>",
                 )
+    # rank-3 subviews: every static / dynamic mask over the three sizes (dynamic sizes: the two dims of %m and the constant 3 passed as an operand) x every queried dynamic
+    # dimension: the dim must be the size operand of THAT dimension (operands are indexed by the number of dynamic sizes before it)
+    for mask in itertools.product((0, 1), repeat=3):
+        for k in range(3):
+            if not mask[k]:
+                continue
+            ops3 = ("%dm0", "%dm1", "%c3")
+            szs = "[" + ", ".join(ops3[j] if mask[j] else "2" for j in range(3)) + "]"
+            svt = "memref<" + "x".join("?" if mask[j] else "2" for j in range(3)) + "xi32, strided<[?, ?, 1], offset: ?>>"
+            allocs[f"subview3_{''.join(map(str, mask))}_{k}"] = (
+                "%dm0 = memref.dim %m, %c0 : memref<?x?xi32>\n    %dm1 = memref.dim %m, %c1 : memref<?x?xi32>\n"
+                "    %m3 = memref.alloc() : memref<9x9x9xi32>\n"
+                f"    %sv = memref.subview %m3[0, 0, 0] {szs} [1, 1, 1] : memref<9x9x9xi32> to {svt}\n"
+                f"    %d = memref.dim %sv, %c{k} : {svt}\n    %a = memref.alloc(%d) : memref<?x4xi32>",
+                "memref<?x4xi32>",
+            )
     loops = {
         "single": ("  scf.for %i = %c0 to %c3 step %c1 {\n    {A}\n    {U}\n  }\n", 1),
         "single_dynub": ("  scf.for %i = %c0 to %n step %c1 {\n    {A}\n    {U}\n  }\n", 1),
